@@ -86,13 +86,20 @@ class LoopContext:
     # iterator of for-in/for-of, the discriminant of switch); a jump that
     # leaves the construct has to pop them
     stack_items: int = 0
+    # Number of enclosing try statements when the construct was entered: a
+    # break/continue only leaves the try statements nested deeper than that
+    try_depth: int = 0
 
 
 @dataclass
 class TryContext:
-    """Context for try-finally blocks (for break/continue/return)."""
+    """Context for try statements (for break/continue/return)."""
 
-    finalizer: Any = None  # The finally block AST node
+    finalizer: Any = None  # The finally block AST node (None for try/catch)
+    # True while code is compiled that runs with this statement's exception
+    # handler installed (the try block, or the catch block of a
+    # try/catch/finally); a jump out of that code has to emit TRY_END
+    handler_active: bool = False
 
 
 class Compiler:
@@ -191,12 +198,24 @@ class Compiler:
         self.bytecode[pos + 1] = target & 0xFF  # Low byte
         self.bytecode[pos + 2] = (target >> 8) & 0xFF  # High byte
 
-    def _emit_pending_finally_blocks(self) -> None:
-        """Emit all pending finally blocks (for break/continue/return)."""
-        # Emit finally blocks in reverse order (innermost first)
-        for try_ctx in reversed(self.try_stack):
+    def _emit_pending_finally_blocks(self, down_to: int = 0) -> None:
+        """Leave the try statements above depth `down_to` (break/continue/return).
+
+        Innermost first: pop the statement's exception handler if the jump
+        starts in code it protects, then run its finally block inline.
+        """
+        saved_try_stack = self.try_stack
+        for depth in range(len(saved_try_stack) - 1, down_to - 1, -1):
+            try_ctx = saved_try_stack[depth]
+            if try_ctx.handler_active:
+                self._emit(OpCode.TRY_END)
             if try_ctx.finalizer:
-                self._compile_statement(try_ctx.finalizer)
+                # The finally block itself is outside this try statement
+                self.try_stack = saved_try_stack[:depth]
+                try:
+                    self._compile_statement(try_ctx.finalizer)
+                finally:
+                    self.try_stack = saved_try_stack
 
     def _emit_pops_for_exit(self, target: LoopContext) -> None:
         """Pop the operands held by the constructs a break/continue jumps out of.
@@ -454,7 +473,7 @@ class Compiler:
                 self._patch_jump(jump_false)
 
         elif isinstance(node, WhileStatement):
-            loop_ctx = LoopContext()
+            loop_ctx = LoopContext(try_depth=len(self.try_stack))
             self.loop_stack.append(loop_ctx)
 
             loop_start = len(self.bytecode)
@@ -477,7 +496,7 @@ class Compiler:
             self.loop_stack.pop()
 
         elif isinstance(node, DoWhileStatement):
-            loop_ctx = LoopContext()
+            loop_ctx = LoopContext(try_depth=len(self.try_stack))
             self.loop_stack.append(loop_ctx)
 
             loop_start = len(self.bytecode)
@@ -498,7 +517,7 @@ class Compiler:
             self.loop_stack.pop()
 
         elif isinstance(node, ForStatement):
-            loop_ctx = LoopContext()
+            loop_ctx = LoopContext(try_depth=len(self.try_stack))
             self.loop_stack.append(loop_ctx)
 
             # Init
@@ -540,7 +559,7 @@ class Compiler:
             self.loop_stack.pop()
 
         elif isinstance(node, ForInStatement):
-            loop_ctx = LoopContext(stack_items=1)
+            loop_ctx = LoopContext(stack_items=1, try_depth=len(self.try_stack))
             self.loop_stack.append(loop_ctx)
 
             # Compile object expression
@@ -610,7 +629,7 @@ class Compiler:
             self.loop_stack.pop()
 
         elif isinstance(node, ForOfStatement):
-            loop_ctx = LoopContext(stack_items=1)
+            loop_ctx = LoopContext(stack_items=1, try_depth=len(self.try_stack))
             self.loop_stack.append(loop_ctx)
 
             # Compile iterable expression
@@ -689,8 +708,8 @@ class Compiler:
                 else:
                     raise SyntaxError("'break' outside of loop")
 
-            # Emit pending finally blocks before the break
-            self._emit_pending_finally_blocks()
+            # Leave the try statements entered inside the target construct
+            self._emit_pending_finally_blocks(ctx.try_depth)
 
             # Pop what the constructs nested inside the target keep on the stack
             self._emit_pops_for_exit(ctx)
@@ -716,8 +735,8 @@ class Compiler:
             if ctx is None:
                 raise SyntaxError(f"label '{target_label}' not found")
 
-            # Emit pending finally blocks before the continue
-            self._emit_pending_finally_blocks()
+            # Leave the try statements entered inside the target loop
+            self._emit_pending_finally_blocks(ctx.try_depth)
 
             # Pop what the constructs nested inside the target keep on the stack
             self._emit_pops_for_exit(ctx)
@@ -726,13 +745,26 @@ class Compiler:
             ctx.continue_jumps.append(pos)
 
         elif isinstance(node, ReturnStatement):
-            # Emit pending finally blocks before the return
-            self._emit_pending_finally_blocks()
-
+            # The return value is computed first, then the enclosing finally
+            # blocks run (they leave the value on the operand stack untouched)
             if node.argument:
                 self._compile_expression(node.argument)
+                if any(try_ctx.finalizer for try_ctx in self.try_stack):
+                    # Park the value in a hidden local: a finally block may
+                    # itself break/continue/return and must not find it on
+                    # the operand stack
+                    pending = f"<pending_return_{len(self.bytecode)}>"
+                    self._add_local(pending)
+                    slot = self._get_local(pending)
+                    self._emit(OpCode.STORE_LOCAL, slot)
+                    self._emit(OpCode.POP)
+                    self._emit_pending_finally_blocks()
+                    self._emit(OpCode.LOAD_LOCAL, slot)
+                else:
+                    self._emit_pending_finally_blocks()
                 self._emit(OpCode.RETURN)
             else:
+                self._emit_pending_finally_blocks()
                 self._emit(OpCode.RETURN_UNDEFINED)
 
         elif isinstance(node, ThrowStatement):
@@ -741,24 +773,29 @@ class Compiler:
             self._emit(OpCode.THROW)
 
         elif isinstance(node, TryStatement):
-            # Push TryContext if there's a finally block so break/continue/return
-            # can inline the finally code
-            if node.finalizer:
-                self.try_stack.append(TryContext(finalizer=node.finalizer))
+            # Every try statement is tracked so that break/continue/return out
+            # of it pop its handler and run its finally block
+            try_ctx = TryContext(finalizer=node.finalizer)
+            self.try_stack.append(try_ctx)
 
             # Try block
             try_start = self._emit_jump(OpCode.TRY_START)
-
+            try_ctx.handler_active = True
             self._compile_statement(node.block)
             self._emit(OpCode.TRY_END)
+            try_ctx.handler_active = False
 
-            # Jump past exception handler to normal finally
+            # Normal completion: skip the exception path
             jump_to_finally = self._emit_jump(OpCode.JUMP)
 
-            # Exception handler
+            # Exception path (the thrown value is on the stack)
             self._patch_jump(try_start)
+            rethrow_handler = None
             if node.handler:
-                # Has catch block
+                if node.finalizer:
+                    # A throw from the catch block still has to run finally
+                    rethrow_handler = self._emit_jump(OpCode.TRY_START)
+                    try_ctx.handler_active = True
                 self._emit(OpCode.CATCH)
                 # Store exception in catch variable
                 name = node.handler.param.name
@@ -767,21 +804,40 @@ class Compiler:
                 self._emit(OpCode.STORE_LOCAL, slot)
                 self._emit(OpCode.POP)
                 self._compile_statement(node.handler.body)
-                # Fall through to finally
-            elif node.finalizer:
-                # No catch, only finally - exception is on stack
-                # Run finally then rethrow
-                self._compile_statement(node.finalizer)
-                self._emit(OpCode.THROW)  # Rethrow the exception
+                if node.finalizer:
+                    self._emit(OpCode.TRY_END)
+                    try_ctx.handler_active = False
+                # Fall through to the normal finally
 
-            # Pop TryContext before compiling normal finally
-            if node.finalizer:
-                self.try_stack.pop()
+            # The finally block is outside the statement it belongs to
+            self.try_stack.pop()
 
-            # Normal finally block (after try completes normally or after catch)
-            self._patch_jump(jump_to_finally)
             if node.finalizer:
+                if node.handler:
+                    # Normal completion of try or catch: finally, then go on
+                    self._patch_jump(jump_to_finally)
+                    self._compile_statement(node.finalizer)
+                    jump_to_end = self._emit_jump(OpCode.JUMP)
+                    self._patch_jump(rethrow_handler)
+                else:
+                    jump_to_end = jump_to_finally
+                # Exception path: keep the exception in a hidden local while
+                # finally runs (finally may itself break/continue/return),
+                # then rethrow it
+                pending = f"<pending_exception_{len(self.bytecode)}>"
+                self._add_local(pending)
+                slot = self._get_local(pending)
+                self._emit(OpCode.STORE_LOCAL, slot)
+                self._emit(OpCode.POP)
                 self._compile_statement(node.finalizer)
+                self._emit(OpCode.LOAD_LOCAL, slot)
+                self._emit(OpCode.THROW)
+                self._patch_jump(jump_to_end)
+                if not node.handler:
+                    # Normal completion of a try/finally
+                    self._compile_statement(node.finalizer)
+            else:
+                self._patch_jump(jump_to_finally)
 
         elif isinstance(node, SwitchStatement):
             self._compile_expression(node.discriminant)
@@ -806,7 +862,9 @@ class Compiler:
             # Case bodies
             case_positions = []
             # For break statements only; the discriminant stays on the stack
-            loop_ctx = LoopContext(is_loop=False, stack_items=1)
+            loop_ctx = LoopContext(
+                is_loop=False, stack_items=1, try_depth=len(self.try_stack)
+            )
             self.loop_stack.append(loop_ctx)
 
             for i, case in enumerate(node.cases):
@@ -860,7 +918,9 @@ class Compiler:
         elif isinstance(node, LabeledStatement):
             # Create a loop context for the label
             # is_loop=False so unlabeled break/continue skip this context
-            loop_ctx = LoopContext(label=node.label.name, is_loop=False)
+            loop_ctx = LoopContext(
+                label=node.label.name, is_loop=False, try_depth=len(self.try_stack)
+            )
             self.loop_stack.append(loop_ctx)
 
             # Compile the labeled body
@@ -996,6 +1056,7 @@ class Compiler:
         old_constants = self.constants
         old_locals = self.locals
         old_loop_stack = self.loop_stack
+        old_try_stack = self.try_stack
         old_in_function = self._in_function
         old_free_vars = self._free_vars
         old_cell_vars = self._cell_vars
@@ -1009,6 +1070,7 @@ class Compiler:
         self.constants = []
         self.locals = [p.name for p in node.params] + ["arguments"]
         self.loop_stack = []
+        self.try_stack = []
         self._in_function = True
 
         # Collect all var declarations to know the full locals set
@@ -1055,6 +1117,7 @@ class Compiler:
         self.constants = old_constants
         self.locals = old_locals
         self.loop_stack = old_loop_stack
+        self.try_stack = old_try_stack
         self._in_function = old_in_function
         self._free_vars = old_free_vars
         self._cell_vars = old_cell_vars
@@ -1081,6 +1144,7 @@ class Compiler:
         old_constants = self.constants
         old_locals = self.locals
         old_loop_stack = self.loop_stack
+        old_try_stack = self.try_stack
         old_in_function = self._in_function
         old_free_vars = self._free_vars
         old_cell_vars = self._cell_vars
@@ -1101,6 +1165,7 @@ class Compiler:
             self.locals.append(name)
 
         self.loop_stack = []
+        self.try_stack = []
         self._in_function = True
 
         # Collect all var declarations to know the full locals set
@@ -1153,6 +1218,7 @@ class Compiler:
         self.constants = old_constants
         self.locals = old_locals
         self.loop_stack = old_loop_stack
+        self.try_stack = old_try_stack
         self._in_function = old_in_function
         self._free_vars = old_free_vars
         self._cell_vars = old_cell_vars
